@@ -535,6 +535,8 @@ func (w *world) enabled() []string {
 			ok = w.connectable(w.tip(), splitNames(e[5:]))
 		case strings.HasPrefix(e, "reload-cut:"):
 			ok = len(poolNames(w)) > 0
+		case e == "undo", e == "undo:slow":
+			ok = w.tip().Height > 103 // never below the funding blocks
 		case e == "reorg2:":
 			ok = w.tip().Height > 104
 		case strings.HasPrefix(e, "reorg:"):
@@ -819,6 +821,26 @@ func (w *world) event(name string) {
 			txs = append(txs, w.u.by[n].tx)
 		}
 		w.deliver(name, w.mkBlock(w.tip(), byte(1+w.pos), txs))
+	case name == "undo", name == "undo:slow":
+		// the operator's "undo" command (client/usif/textui undo_block): UndoLastBlock with the
+		// BlockCommitInProgress bracket, or - "undo slow" - without it, i.e. while incremental
+		// sorting is NOT suspended; both end with BlockCommitInProgress(false)
+		t := w.tip()
+		if name == "undo" {
+			txpool.BlockCommitInProgress(true)
+		}
+		w.e.Ch.UndoLastBlock()
+		txpool.BlockCommitInProgress(false)
+		common.Last.Mutex.Lock()
+		common.Last.Block = w.e.Ch.LastBlock()
+		common.Last.Mutex.Unlock()
+		common.UpdateScriptFlags(0)
+		w.m.Forget(t) // the reference forgets the block: its parent is the tip again
+		if got, _ := w.e.Tip(); got != w.tip().Hash || w.tip() != t.Parent {
+			hfail("after %s the node's tip is not the parent of the undone block", name)
+		}
+		w.step(name, "")
+		w.oracle(name)
 	case name == "reorg2:":
 		// competing branch forking two blocks below the tip: two BlockUndone callbacks, three BlockMined
 		par := w.tip().Parent.Parent
@@ -1689,6 +1711,7 @@ var scenarios = []scenario{
 	{"rbf-own-parent", []string{"net:T1", "net:C1", "net:R", "net:R2", "net:R3", "tru:R2", "mine:best", "list", "reorg:"}, false, true, false},
 	{"levels", []string{"net:LG", "net:LP2", "net:LP1", "net:LC", "list", "mine:best", "mine:LG", "reorg:"}, false, true, false},
 	{"multi-edge", []string{"net:MP", "net:MC2", "net:MC3", "net:MQ", "net:MD2", "net:TP", "net:TC", "net:TG", "net:T2", "list", "mine:T2", "reorg:", "reload"}, false, false, true},
+	{"undo", []string{"net:T1", "net:T2", "net:D", "mine:T1", "mine:T2", "list", "undo", "undo:slow", "mine:best"}, false, false, true},
 	{"pkg-rbf", []string{"net:T1", "net:C1", "net:G", "net:G2", "net:C1x", "net:Gx", "net:G2x", "list", "adv13h", "tick"}, false, false, true},
 	{"badfile", []string{"net:T1", "net:C1", "net:T1hi", "net:O", "reload-cut:tx1", "reload-cut:tail5", "reload-cut:flip-end", "reload", "list"}, false, true, true},
 	{"side", []string{"net:SR", "net:SQ", "net:TM", "net:CM2", "net:CS2", "list", "adv13h", "mine:T2"}, false, true, false},
@@ -1704,6 +1727,8 @@ var scenarios = []scenario{
 //	       run and one outside; with and without a listing between run and children
 //	multi  a child joined to one parent by two / three edges, and the triangle P->C->G + P->G, in both
 //	       rate orders, with listings right after every event that dirties the sorted list
+//	undo   the operator's undo command with and without the BlockCommitInProgress bracket, the child of
+//	       the returning transaction having a second unconfirmed parent (rates on both sides of its own)
 //	pkg    chains of 3-4 with up-to-date fee packages, then replacement / expiry of the last or a
 //	       middle member (a non-root package member leaves the pool outside block processing)
 //	badfile the pool file is cut at every record-boundary class or has one byte changed where the
@@ -1754,6 +1779,34 @@ func scripts(thorough bool) (l []script) {
 		)
 		if fam[0] == "MP" && fam[1] == "MC2" {
 			l = append(l, script{"multi", cat(sub, "reload", "list", "net:MC2x", "list")}, script{"multi", cat(sub, "list", "net:MC2x", "reload")})
+		}
+	}
+	// undo: the operator's undo command with and without the BlockCommitInProgress bracket. The pooled
+	// child (D / LC / CS2) of the transaction that comes back has a SECOND unconfirmed parent, and the
+	// two parents' fee rates lie on both sides of the child's; with and without a listing (which
+	// cleans the dirty flags) between the block and the undo, and after it
+	for _, f := range []struct {
+		pool  []string
+		mined []string
+	}{
+		{[]string{"T1", "T2", "D"}, []string{"T1"}}, {[]string{"T1", "T2", "D"}, []string{"T2"}}, {[]string{"T1", "T2", "D"}, []string{"T1", "T2"}},
+		{[]string{"LG", "LP2", "LP1", "LC"}, []string{"LP1"}}, {[]string{"LG", "LP2", "LP1", "LC"}, []string{"LG", "LP2"}}, {[]string{"LG", "LP2", "LP1", "LC"}, []string{"LG"}},
+		{[]string{"SR", "SQ", "TM", "CM2", "CS2"}, []string{"TM"}}, {[]string{"SR", "SQ", "TM", "CM2", "CS2"}, []string{"SR", "SQ"}}, {[]string{"SR", "SQ", "TM", "CM2", "CS2"}, []string{"SR"}},
+	} {
+		var sub []string
+		for _, c := range f.pool {
+			sub = append(sub, "net:"+c)
+		}
+		mine := "mine:" + strings.Join(f.mined, ",")
+		cat := func(a []string, b ...string) []string { return append(append([]string{}, a...), b...) }
+		for _, undo := range []string{"undo", "undo:slow"} {
+			l = append(l,
+				script{"undo", cat(sub, mine, undo)},
+				script{"undo", cat(sub, mine, "list", undo)},
+				script{"undo", cat(sub, mine, "list", undo, "list", "mine:best")},
+				script{"undo", cat(sub, "list", mine, undo, "list")},
+				script{"undo", cat(sub, mine, "list", undo, mine, "list", undo)},
+			)
 		}
 	}
 	// pkg: chains of 3 and 4 with up-to-date fee packages (a listing within the last 10
@@ -2187,6 +2240,7 @@ func main() {
 		"rule": "BFS over event histories per scenario (one event menu each; per_scenario lists them; final-rbf = NotFullRBF configuration), every history in a fresh worker process on a copy of a 105-block chain wired to txpool as client/main.go does; " +
 			"plus scripted long histories (depth instead of breadth): dense = runs of 64 and 200 equal-rate / ascending / descending / converging-rate transactions into one gap of the sorted list with none/high/low/both anchors, then two-parent children (one parent inside the run, one outside), with and without a listing in between; " +
 			"multi = child spending two / three outputs of one parent and the triangle P->C->G + P->G, child rate above and below the parent's, listing right after every sort-dirtying event (pooled tx mined, block undone, reload) and after a later replacement; " +
+			"undo = operator's undo command (UndoLastBlock) with and without the BlockCommitInProgress bracket, pooled child of the returning transaction with a second unconfirmed parent and parents' rates on both sides of the child's, listings before and after; " +
 			"pkg = chains of 3-4 with up-to-date fee packages, then replacement / expiry of the last or a middle member; badfile = pool file cut at every record-boundary class or one byte changed (block hash, record counts, end marker) between MempoolSave and MempoolLoad, which must return true with the saved pool or false with an empty pool, followed by double spends / children / replacements; " +
 			"side = CPFP child whose second parent sits at depth 1-3 of a low-rate unconfirmed chain, parents first and children first, listing before and after every package-rebuild trigger (connected block, undone block, 10-minute suspend, reload); " +
 			"scripted histories run first and are not subject to the wall-clock budget; invariant oracle after every event; both listings, GetMempoolFees (listed = pooled, no output spent twice, Fee/Weight = sums) and block-from-listing acceptance at the end of every history and at list events; state key = (confirmed txs, tip block txs, pooled txs with Local/Final/MemInputs/age bucket, rejected records with reason, pending, dirty flags, sort order, fee packages as root+member set, clock buckets, dynamic minimal fee, size limit)",
